@@ -111,6 +111,32 @@ def prog_step(env, case):
         x0 = p0
     gamma = env.real("gamma")
     eps = env.real("eps")
+    # ---- optional pre-history: what a step records must not depend on what happened before it ---------------------
+    pre = case.get('pre')
+    if pre == 'evaluated':
+        target.oracle(x0)                       # the starting point was already evaluated by the user
+    elif pre == 'stationary':
+        x0 = target.stationary_point()          # the step starts from a declared optimum (null recorded gradient)
+    elif pre == 'step':
+        gp, ep = env.real("gamma_pre"), env.real("eps_pre")
+        if step == 'proximal':
+            x0 = ps.proximal_step(x0, target, gp)[0]
+        elif step == 'inexact_gradient':
+            x0 = ps.inexact_gradient_step(x0, target, gp, ep, notion=opt)[0]
+        elif step == 'exact_linesearch':
+            x0 = ps.exact_linesearch_step(x0, target, [p1])[0]
+        elif step == 'epsilon_subgradient':
+            x0 = ps.epsilon_subgradient_step(x0, target, gp)[0]
+        elif step == 'bregman_gradient':
+            x0 = ps.bregman_gradient_step(p1, x0, h, gp)[1]
+        elif step == 'bregman_proximal':
+            x0 = ps.bregman_proximal_step(x0, h, f, gp)[1]
+        elif step == 'inexact_proximal':
+            if env.sym:
+                env.assume(env.neg(env.eq(gp, 0)))
+            x0 = ps.inexact_proximal_step(x0, target, gp, opt=opt)[0]
+    if pre:
+        tag += ":after-" + pre
     sc = Scope(fns)
     expected_pts, expected_cons = {}, {}
     if step == 'proximal':
@@ -306,6 +332,21 @@ def cases(tier):
                     continue
                 cs.append(dict(id="%s%s-%s%s" % (st, "-" + opt if opt else "", start, "-composite" if comp else ""),
                                step=st, opt=opt, start=start, composite=comp, ndirs=2 if start == 'comb' else 1,
+                               input_zero_tests='generic' if comp else 'fork'))
+    # pre-histories: the starting point already evaluated / a declared optimum / the output of the same step
+    for st, opt in steps:
+        for pre in ('evaluated', 'stationary', 'step'):
+            if st == 'linear_optimization' or (pre == 'stationary' and st in ('bregman_gradient', 'bregman_proximal')):
+                continue
+            for comp in ((False,) if tier == 'quick' else (False, True)):
+                if comp and st in ('bregman_gradient', 'bregman_proximal'):
+                    continue
+                if tier == 'quick' and not ((pre == 'step' and st in ('proximal', 'inexact_gradient', 'exact_linesearch'))
+                                            or (pre == 'stationary' and st == 'inexact_gradient')
+                                            or (pre == 'evaluated' and st in ('epsilon_subgradient', 'inexact_proximal'))):
+                    continue
+                cs.append(dict(id="%s%s-after-%s%s" % (st, "-" + opt if opt else "", pre, "-composite" if comp else ""),
+                               step=st, opt=opt, start='leaf', composite=comp, ndirs=1, pre=pre,
                                input_zero_tests='generic' if comp else 'fork'))
     cs.append(dict(id="real-proximal", real=True, step='proximal'))
     cs.append(dict(id="real-inexact-absolute", real=True, step='inexact_gradient', opt='absolute'))
